@@ -1076,6 +1076,56 @@ def case_fixed(ctx):
                     judge_text(ctx, text, gtype, fmt, "stringio", ["corpus"], scratch)
 
 
+def case_undecodable_files(ctx, rseed):
+    """Files that are no text at all: a valid graph file with one byte that is invalid UTF-8 (0xff, a lone 0xc3, a lone
+    0x80) put inside a number of a data line.  Whatever decoding a reader uses, that line is not made of numbers any
+    more: library (by file name) and command line must refuse the file with ValueError, never build a graph from the
+    bytes around the damage."""
+    from cnfgen.clitools.graph_args import make_graph_from_spec
+    g = G_()
+    ref.selfcheck()
+    r = ctx.rng("undecodable", rseed)
+    with Scratch() as scratch:
+        for gtype in ("simple", "digraph", "dag", "bipartite"):
+            for fmt in formats_for(gtype):
+                if fmt == "dot" and not g.has_dot_library():
+                    continue
+                for text in base_texts(ctx, r, gtype, fmt, 3)[:5]:
+                    raw = text.encode("utf-8")
+                    # positions between two digits of a line that is not a comment
+                    spots, start = [], 0
+                    for line in raw.split(b"\n"):
+                        if not line.lstrip().startswith((b"c", b"#", b"*")):
+                            spots += [start + i for i in range(1, len(line)) if line[i - 1:i].isdigit() and line[i:i + 1].isdigit()]
+                        start += len(line) + 1
+                    if not spots:
+                        continue
+                    for bad in (b"\xff", b"\xc3", b"\x80"):
+                        pos = r.choice(spots)
+                        damaged = raw[:pos] + bad + raw[pos:]
+                        p = scratch.path(fmt)
+                        with open(p, "wb") as f:
+                            f.write(damaged)
+                        for how in ("library", "command line"):
+                            with quiet(ctx):
+                                if how == "library":
+                                    st, val = ctx.call(g.readGraph, p, gtype, fmt)
+                                else:
+                                    st, val = ctx.call(make_graph_from_spec, gtype, [fmt, p])
+                            ctx.count("undecodable_files_offered")
+                            where = "%s file with the byte %r between two digits of a data line, read as %s through the %s" % (fmt, bad, gtype, how)
+                            if st == "exc":
+                                if isinstance(val, ValueError):
+                                    ctx.count("texts_refused_with_ValueError")
+                                else:
+                                    ctx.violation(exc_mechanism(fmt, gtype, val, text), "%s: raised %s: %s" % (where, type(val).__name__, val))
+                            else:
+                                ctx.violation("reader:%s:accepts-undecodable-bytes" % fmt, "%s: a graph was returned (%r)"
+                                              % (where, show(observe(val, gtype)) if observe(val, gtype) else val), text=repr(damaged[:300]))
+                            ctx.judged(("undecodable", gtype, fmt, bad.hex(), how, pos), nontrivial=True, sample={"format": fmt, "graph type": gtype, "via": how})
+                        os.unlink(p)
+
+
 def case_dot_spellings(ctx, rseed):
     """dot files whose vertex names are all integer literals, some of them different spellings of one integer
     ('1' and '01', '7' and '007', '10' and '1_0'): different names are different vertices.  Either the file is
@@ -1313,6 +1363,7 @@ def workload(tier, seed):
     yield "huge_sparse", {"gtype": "simple"}
     yield "locale", {"rseed": seed}
     yield "dot_spellings", {"rseed": seed}
+    yield "undecodable_files", {"rseed": seed}
     for gtype in ("simple", "dag", "digraph", "bipartite"):
         for fmt in {"simple": ["kthlist", "gml", "dimacs"], "digraph": ["kthlist", "gml", "dimacs"], "dag": ["kthlist", "gml", "dimacs"],
                     "bipartite": ["kthlist", "gml", "matrix"]}[gtype]:
